@@ -48,6 +48,21 @@ def region_span(tr, r, region, enc):
     return p['crc'], p['end']
 
 
+def _crc_error_table():
+    """error pattern in the two recorded CRC bytes -> residue of a CRC-16/CCITT check over field + CRC (linear);
+    inverted for the 16 single-bit residues"""
+    def residue(e):
+        c = e
+        for _ in range(16):
+            c = ((c << 1) ^ 0x1021) & 0xFFFF if c & 0x8000 else (c << 1)
+        return c
+    inv = {residue(e): e for e in range(1, 65536)}
+    return [inv[1 << k] for k in range(16)]
+
+
+CRC_ERROR_FOR_RESIDUE_BIT = _crc_error_table()
+
+
 def damage_track(rng, tr, enc, order, style=None):
     cells = bytearray(tr.c)
     ops = []
@@ -83,13 +98,16 @@ def damage_track(rng, tr, enc, order, style=None):
             ops.append(('del', at))
         log.append((kind, r, region))
 
-    def recode(r, region):
+    def recode(r, region, fixed=None):
         # wrong bytes, legal clock pattern, stale CRC: only the CRC check can reject this field
         a0, b0 = region_span(tr, r, region, enc)
         n = (b0 - a0) // 16
         cur = flux._bits_to_bytes(cells, a0 + 1, n)
         new = bytearray(cur)
-        for _ in range(rng.choice([1, 1, 2, 3, 8])):
+        if fixed is not None:
+            for (at, x) in fixed:
+                new[at] ^= x
+        for _ in range(rng.choice([1, 1, 2, 3, 8]) if fixed is None else 0):
             new[rng.randrange(n)] ^= rng.choice([1, 2, 4, 8, 16, 32, 64, 128, 0xFF, rng.randrange(1, 256)])
         if bytes(new) == cur:
             new[0] ^= 1
@@ -141,6 +159,19 @@ def damage_track(rng, tr, enc, order, style=None):
                     recode(r, 'idfield')
             else:
                 recode(r, 'data' if rng.random() < 0.8 else 'idfield')
+    elif style == 'crc-bits':
+        # the recorded CRC of the data field, or of the ID field, is wrong by exactly the pattern that leaves one
+        # single bit k in the checker's residue (legal clocks, field bytes intact): each of the 16 residue bits in
+        # turn, so a CRC comparison that ignores any bit of the residue accepts one of these
+        rot = rng.randrange(16)
+        for j, r in enumerate(recs):
+            k = (j + rot) % 16
+            e = CRC_ERROR_FOR_RESIDUE_BIT[k]
+            if rng.random() < 0.5:
+                recode(r, 'crc', [(0, e >> 8), (1, e & 0xFF)])
+            else:
+                recode(r, 'idfield', [(4, e >> 8), (5, e & 0xFF)])
+            log.append(('crc-bit', r, k))
     elif style == 'lost-record':
         # the data mark of one or more sectors disappears
         for r in rng.sample(recs, rng.randint(1, 3)):
@@ -401,10 +432,10 @@ def image_case(spec):
     res = CaseResult()
     dfsbin = BIN['san']['dfs']
     with Scratch('c06') as tmp:
-        enc = rng.choice(['fm', 'mfm'])
+        # stratified: every (encoding, container) x damage style is met
+        enc, kind = [('fm', 'hfe1'), ('mfm', 'mfm'), ('mfm', 'hfe1'), ('fm', 'hfe3'), ('mfm', 'hfe3'), ('mfm', 'mfm')][idx % 6]
         spt = 10 if enc == 'fm' else 18
         tracks = rng.choice([3, 5, 8, 40])
-        kind = rng.choice(['hfe1', 'hfe3', 'mfm']) if enc == 'mfm' else rng.choice(['hfe1', 'hfe3'])
         total = min(tracks * spt, 1023)
         nonce = rng.getrandbits(16)
         # a nearly empty disc: almost every sector is a fingerprint
@@ -413,8 +444,9 @@ def image_case(spec):
         s = dm.Surface('acorn', tracks, spt, [dm.Volume(None, 0, tracks * spt, 0, cat)], nonce, 0)
         img = s.image()
         params = flux.FluxParams(rng, enc, spt)
-        style = rng.choice(['same-sector-every-track', 'highest-record-every-track', 'random', 'random', 'one-track',
-                            'double-fault-every-track', 'relabel-cylinder', 'relabel-cylinder'])
+        styles = ['same-sector-every-track', 'highest-record-every-track', 'random', 'lowest-record-every-track', 'one-track',
+                  'double-fault-every-track', 'relabel-cylinder']
+        style = styles[(idx // 6) % len(styles)]
         damaged = set()
         packed = {}
         relabel_track = rng.randrange(0, max(1, tracks - 1))
@@ -443,6 +475,8 @@ def image_case(spec):
                 victims = [(idx % spt, rng.choice(['dam', 'idam', 'data', 'crc', 'idfield']))]
             elif style == 'highest-record-every-track':
                 victims = [(spt - 1, rng.choice(['dam', 'idam', 'data']))]
+            elif style == 'lowest-record-every-track':
+                victims = [(0, rng.choice(['dam', 'idam', 'data']))] if t > 0 else []
             elif style == 'double-fault-every-track':
                 i = (idx * 7) % (spt - 1)
                 victims = [(order[i], 'dam'), (order[i + 1], 'idam')]
@@ -527,6 +561,8 @@ def image_case(spec):
 def dispatch(spec):
     if spec[1] == 'rec':
         return decoder_case((spec[0],) + spec[2:], 'recode-all')
+    if spec[1] == 'crcb':
+        return decoder_case((spec[0],) + spec[2:], 'crc-bits')
     return {'dec': decoder_case, 'arb': arbitrary_case, 'img': image_case}[spec[1]]((spec[0],) + spec[2:])
 
 
@@ -537,10 +573,11 @@ def main(tier, seed, scale=1.0):
     q = tier == 'quick'
     specs = [(seed, 'dec', i, tier) for i in range(int((160 if q else 8000) * scale))] + \
             [(seed, 'rec', i, tier) for i in range(int((120 if q else 4000) * scale))] + \
+            [(seed, 'crcb', i, tier) for i in range(max(2, int((24 if q else 600) * scale)))] + \
             [(seed, 'arb', i, tier) for i in range(int((40 if q else 1500) * scale))] + \
             [(seed, 'img', i, tier) for i in range(int((150 if q else 3000) * scale))]
     rule = ('dec cases: 25 valid FM/MFM tracks each (10/16/18 spt, random legal parameters) with damage styles random / '
-            'lost-record / double-fault / slips / zeros / truncate / recode (field re-encoded with legal clocks, wrong bytes and the stale CRC; rec cases recode every sector) applied to chosen regions (sync, ID mark, ID field, gap2, '
+            'lost-record / double-fault / slips / zeros / truncate / recode (field re-encoded with legal clocks, wrong bytes and the stale CRC; rec cases recode every sector; crcb cases flip each of the 16 bits of a recorded data or ID CRC in turn) applied to chosen regions (sync, ID mark, ID field, gap2, '
             'data mark, data, CRC); every sector the real decoders yield must be the recorded data for that address or '
             'CRC-valid at its home position in the damaged stream; arb cases: 30 arbitrary streams each (random bits, '
             'constant, spliced fragments at arbitrary bit offsets, odd size codes, truncated) judged by an independent '
